@@ -41,16 +41,16 @@ func ToUnicode(name string, dingbats bool) []rune {
 	parts := strings.Split(name, "_")
 	for _, part := range parts {
 		if dingbats {
-			c, ok := glyph.lookup("zapfdingbats", part)
+			c, ok := glyph.lookupAll("zapfdingbats", part)
 			if ok {
-				res = append(res, c)
+				res = append(res, c...)
 				continue
 			}
 		}
 
-		c, ok := glyph.lookup("glyphlist", part)
+		c, ok := glyph.lookupAll("glyphlist", part)
 		if ok {
-			res = append(res, c)
+			res = append(res, c...)
 			continue
 		}
 
@@ -116,7 +116,7 @@ func FromUnicode(r rune) string {
 
 type glyphMap struct {
 	sync.Mutex
-	nameToRune map[string]map[string]rune
+	nameToRune map[string]map[string][]rune
 	runeToName map[rune]string
 }
 
@@ -170,7 +170,17 @@ func (gm *glyphMap) getEncode() map[rune]string {
 	return r2n
 }
 
+// lookup returns the first character of the text denoted by a glyph name.
 func (gm *glyphMap) lookup(file, name string) (rune, bool) {
+	cc, ok := gm.lookupAll(file, name)
+	if !ok || len(cc) == 0 {
+		return 0, ok
+	}
+	return cc[0], true
+}
+
+// lookupAll returns the text denoted by a glyph name.
+func (gm *glyphMap) lookupAll(file, name string) ([]rune, bool) {
 	gm.Lock()
 	defer gm.Unlock()
 	hook("acquire", file)
@@ -181,12 +191,12 @@ func (gm *glyphMap) lookup(file, name string) (rune, bool) {
 	return c, ok
 }
 
-func (gm *glyphMap) getFile(file string) map[string]rune {
+func (gm *glyphMap) getFile(file string) map[string][]rune {
 	fMap := gm.nameToRune[file]
 	if fMap != nil {
 		return fMap
 	}
-	fMap = make(map[string]rune)
+	fMap = make(map[string][]rune)
 	hook("build", file)
 
 	fd, err := glyphData.Open("agl-aglfn/" + file + ".txt")
@@ -202,17 +212,22 @@ func (gm *glyphMap) getFile(file string) map[string]rune {
 		}
 		ww := strings.SplitN(line, ";", 2)
 		name := ww[0]
-		code, _ := strconv.ParseInt(ww[1], 16, 32)
+		// some glyph names denote a sequence of characters
+		var codes []rune
+		for _, field := range strings.Fields(ww[1]) {
+			code, _ := strconv.ParseInt(field, 16, 32)
+			codes = append(codes, rune(code))
+		}
 
 		// fix up some swapped character codes
 		switch {
-		case name == "Tcommaaccent" && code == 0x0162:
-			code = 0x021A
-		case name == "tcommaaccent" && code == 0x0163:
-			code = 0x021B
+		case name == "Tcommaaccent" && len(codes) == 1 && codes[0] == 0x0162:
+			codes[0] = 0x021A
+		case name == "tcommaaccent" && len(codes) == 1 && codes[0] == 0x0163:
+			codes[0] = 0x021B
 		}
 
-		fMap[name] = rune(code)
+		fMap[name] = codes
 	}
 	if err := scanner.Err(); err != nil {
 		panic("corrupted glyph map " + file)
@@ -224,7 +239,7 @@ func (gm *glyphMap) getFile(file string) map[string]rune {
 }
 
 var glyph = &glyphMap{
-	nameToRune: make(map[string]map[string]rune),
+	nameToRune: make(map[string]map[string][]rune),
 }
 
 //go:embed agl-aglfn/*.txt
